@@ -24,6 +24,9 @@ func NewUnixFSFile(ctx context.Context, substrate ipld.Node, lsys *ipld.LinkSyst
 	if err != nil {
 		return nil, err
 	}
+	if links.Kind() != ipld.Kind_List {
+		return nil, ipld.ErrWrongKind{TypeName: "Links", MethodName: "NewUnixFSFile", AppropriateKind: ipld.KindSet_JustList, ActualKind: links.Kind()}
+	}
 	if links.Length() == 0 {
 		// no children.
 		return newWrappedNode(substrate)
